@@ -28,6 +28,9 @@ def main():
             s = sweep.rules_suite(ctx)
             for d in s.disagreements:
                 out[sweep.key(d["sha"], {}, d["rule"])] = d["what"][:120]
+            p.write_text(json.dumps(out, indent=0, sort_keys=True) + "\n")  # the step suite skips what the rule sweep lists
+            for d in sweep.pipeline_steps_suite(ctx).disagreements:
+                out[sweep.key(d["sha"], {}, d["rule"])] = d["what"][:160]
         elif prop in ("C03", "C04"):
             s = sweep.total_suite(ctx, prop)
             for d in s.disagreements:
